@@ -298,6 +298,42 @@ func init() {
 			}
 		}
 		e.drain()
+		// second wave: Restart, Pause + Resume or binding another queue must leave the limit where
+		// the last TunePool (or the configuration) put it
+		if r.Intn(2) == 0 {
+			q2 := q
+			switch e.p("between", r.Intn(3)) {
+			case 0:
+				e.lifecycle("Restart", 0)
+			case 1:
+				e.lifecycle("PauseAndWait", 0)
+				e.lifecycle("Resume", 0)
+			case 2:
+				q2 = e.bind(pick(r, qFifo, qPrio))
+			}
+			first := len(e.subs)
+			n2 := e.p("jobs2", 1+r.Intn(7))
+			for i := 0; i < n2; i++ {
+				e.add(q2, r.Intn(3), oOK, true, "")
+			}
+			w2 := n2
+			if limit < w2 {
+				w2 = limit
+			}
+			c := e.call("Saturation", fmt.Sprintf("want%d", w2))
+			vt.WaitIdle()
+			got := 0
+			for _, s := range e.subs[first:] {
+				if len(s.tEnter) > len(s.tExit) {
+					got++
+				}
+			}
+			c.ret(strconv.Itoa(got))
+			if got != w2 {
+				e.notes = append(e.notes, fmt.Sprintf("SATURATION: second wave: %d worker functions in flight at rest, %d jobs, limit %d", got, n2, limit))
+			}
+			e.drain()
+		}
 	})
 
 	// pool: pool size / idle trimming / Stop-Restart cycles do not accumulate goroutines
